@@ -39,7 +39,8 @@ func (c08) Plan(tier string, seed int64) []mon.Workload {
 	if tier == "thorough" {
 		n = 6000
 	}
-	return []mon.Workload{{Name: "v1", N: n}, {Name: "v2", N: n}, {Name: "subset-tables", N: n / 2}}
+	return []mon.Workload{{Name: "v1", N: n}, {Name: "v2", N: n}, {Name: "subset-tables", N: n / 2},
+		{Name: "long-valid", N: int64(len(c08LongSizes) * len(c08LongShapes) * 2), Exhaustive: true}}
 }
 
 // invalid calls per builtin: label -> source text (identifiers a, b exist as plain names)
@@ -146,7 +147,102 @@ func (c08) base(c *mon.Ctx, v2 bool) []*gt.T {
 }
 
 func (k c08) Describe(c *mon.Ctx, workload string, i int64) any {
+	if workload == "long-valid" {
+		return map[string]any{"index": i}
+	}
 	return map[string]any{"base": gt.Print(gt.ParenthesizeStmts(k.base(c, workload == "v2")), nil)}
+}
+
+// long-valid: "a script made only of valid constructs is never rejected" -
+// however long it is and however deep it nests. Sizes in statements / levels.
+var c08LongSizes = []int{50, 300, 1200, 4000}
+var c08LongShapes = []string{"assignments", "if-else", "small-loops", "mixed", "nested-if", "nested-loops", "nested-expr", "long-list"}
+
+func c08LongScript(shape string, n int) string {
+	var sb strings.Builder
+	switch shape {
+	case "assignments":
+		for i := 0; i < n; i++ {
+			fmt.Fprintf(&sb, "a = %d + 2 * a\n", i)
+		}
+	case "if-else":
+		for i := 0; i < n; i++ {
+			fmt.Fprintf(&sb, "if a == %d {\n  b = 1\n} elif a {\n  b = 2\n} else {\n  b = [a, %d]\n}\n", i, i)
+		}
+	case "small-loops":
+		for i := 0; i < n; i++ {
+			fmt.Fprintf(&sb, "for i = 0; i < 2; i = i + 1 {\n  if i == 1 { continue }\n  c = i\n}\n")
+		}
+	case "mixed":
+		for i := 0; i < n; i++ {
+			switch i % 4 {
+			case 0:
+				fmt.Fprintf(&sb, "x = {\"k\": [%d, a[1:2]], \"q\": -a}\n", i)
+			case 1:
+				fmt.Fprintf(&sb, "for e in [1, 2] {\n  if e { break }\n}\n")
+			case 2:
+				fmt.Fprintf(&sb, "p(a, %d)\n", i)
+			default:
+				fmt.Fprintf(&sb, "if a in x && !b || a != %d {\n  a += 1\n}\n", i)
+			}
+		}
+	case "nested-if":
+		d := min(n/10, 150)
+		for i := 0; i < d; i++ {
+			sb.WriteString(strings.Repeat(" ", i%8) + "if a {\n")
+		}
+		sb.WriteString("b = 1\n")
+		for i := 0; i < d; i++ {
+			sb.WriteString("}\n")
+		}
+	case "nested-loops":
+		d := min(n/10, 150)
+		for i := 0; i < d; i++ {
+			sb.WriteString("for e in [1] {\n")
+		}
+		sb.WriteString("b = 1\nbreak\n")
+		for i := 0; i < d; i++ {
+			sb.WriteString("}\n")
+		}
+	case "nested-expr":
+		d := min(n/4, 400)
+		sb.WriteString("x = " + strings.Repeat("(1 + ", d) + "a" + strings.Repeat(")", d) + "\n")
+		sb.WriteString("y = " + strings.Repeat("[", d) + "a" + strings.Repeat("]", d) + "\n")
+	case "long-list":
+		sb.WriteString("x = [")
+		for i := 0; i < n; i++ {
+			fmt.Fprintf(&sb, "%d, ", i)
+		}
+		sb.WriteString("a]\ny = {")
+		for i := 0; i < n; i++ {
+			fmt.Fprintf(&sb, "\"k%d\": a, ", i)
+		}
+		sb.WriteString("\"z\": 1}\n")
+	}
+	return sb.String()
+}
+
+func (k c08) longValid(c *mon.Ctx, i int64) {
+	v2 := i%2 == 1
+	i /= 2
+	shape := c08LongShapes[int(i)%len(c08LongShapes)]
+	n := c08LongSizes[int(i)/len(c08LongShapes)]
+	src := c08LongScript(shape, n)
+	load, name := c08Loader(loadV1Err), "v1"
+	if v2 {
+		load, name = loadV2Err, "v2"
+	}
+	err, pan := load(src)
+	c.Eval(1)
+	c.Nontrivial(fmt.Sprint(shape, n, v2))
+	c.Cell("long_valid_shapes", fmt.Sprintf("%s/%d/%s", shape, n, name))
+	info := map[string]any{"shape": shape, "size": n, "interpreter": name, "source_head": firstN(src, 12)}
+	switch {
+	case pan != nil:
+		c.Violate("check-panic", fmt.Sprintf("loading a valid %s script of size %d panicked: %v", shape, n, pan), info)
+	case err != nil:
+		c.Violate("valid-program-rejected:"+name, fmt.Sprintf("a valid script (%s, size %d, %d bytes) was rejected by the %s check pass: %v", shape, n, len(src), name, err), info)
+	}
 }
 
 type c08Loader func(src string) (err error, pan any)
@@ -170,6 +266,10 @@ func loadV2Err(src string) (err error, pan any) {
 func (k c08) Run(c *mon.Ctx, workload string, i int64) {
 	if workload == "subset-tables" {
 		k.subset(c)
+		return
+	}
+	if workload == "long-valid" {
+		k.longValid(c, i)
 		return
 	}
 	v2 := workload == "v2"
